@@ -188,6 +188,15 @@ class DigestedCredentials:
         algo = self.fields.get("algorithm", b"md5").lower()
         qop = self.fields.get("qop", b"auth")
 
+        if (
+            algo not in algorithms
+            or uri is None
+            or qop == b"auth-int"
+            or (algo == b"md5-sess" and cnonce is None)
+        ):
+            # Malformed or unsupported response: an ordinary mismatch.
+            return False
+
         expected = calcResponse(
             calcHA1(algo, None, None, None, nonce, cnonce, preHA1=digestHash),
             calcHA2(algo, self.method, uri, qop, None),
